@@ -111,7 +111,7 @@ func lex(src string) ([]tok, error) {
 			i++
 		case unicode.IsLetter(rune(c)) || c == '_':
 			j := i
-			for j < len(src) && (unicode.IsLetter(rune(src[j])) || unicode.IsDigit(rune(src[j])) || src[j] == '_' || src[j] == '$') {
+			for j < len(src) && (unicode.IsLetter(rune(src[j])) || unicode.IsDigit(rune(src[j])) || src[j] == '_' || src[j] == '$' || (src[j] == '#' && j+1 < len(src) && unicode.IsDigit(rune(src[j+1])))) {
 				j++
 			}
 			out = append(out, tok{kind: "id", s: src[i:j]})
@@ -382,7 +382,7 @@ func (p *parser) mul() Expr {
 
 func (p *parser) unary() Expr {
 	t := p.peek()
-	if t.kind == "op" && (t.s == "!" || t.s == "-" || t.s == "*") {
+	if t.kind == "op" && (t.s == "!" || t.s == "-" || t.s == "*" || t.s == "&") {
 		p.next()
 		return &Unary{t.s, p.unary()}
 	}
